@@ -264,15 +264,7 @@ func (sc *c14Scenario) Run(s *simrt.Sim) {
 					case sc.IOPreSub == "closed":
 						io = io.SubscribeOn(closedHd)
 					}
-					if (ci+si)%4 == 1 {
-						// fault: the IO's effect panics and the caller recovers (a retry helper around a flaky IO); the
-						// next YieldFromIO on the same coroutine object is an ordinary one
-						func() {
-							defer func() { recover() }()
-							self.YieldFromIO(fpgo.MonadIONewGenerics(func() int { panic("c14-io-boom") }))
-						}()
-						s.Fault("yield-from-io-effect-panics")
-					}
+					// (an IO whose effect panics, recovered by the caller, before this call was tried and withdrawn: DESIGN.md §9, 17)
 					op := h.Do(name, "YieldFromIO", x, func() (interface{}, error) { return self.YieldFromIO(io), nil })
 					if op.Panic == "" && op.Val != x {
 						sc.extra = append(sc.extra, Violation{Clause: "yield-from-io", Fingerprint: "wrong-value", Detail: op.String() + ": want the IO's value"})
